@@ -1226,12 +1226,27 @@ func (a *Agent) retargetKnownPairHolders(oldPair, newPair *CandidatePair) {
 	}
 }
 
+// sameTransportAddress reports whether two candidates stand for the same
+// transport address. A peer-reflexive candidate is known by its IP address
+// only, while the signaled candidate it is redundant with may be written
+// differently (an mDNS name that has been resolved, a non-canonical IPv6
+// spelling): compare the resolved addresses when both are known.
+func sameTransportAddress(a, b Candidate) bool {
+	aAddr, bAddr := a.addrPort(), b.addrPort()
+	if aAddr.IsValid() && bAddr.IsValid() {
+		return a.NetworkType() == b.NetworkType() && a.TCPType() == b.TCPType() &&
+			aAddr.Port() == bAddr.Port() && aAddr.Addr().Unmap() == bAddr.Addr().Unmap()
+	}
+
+	return a.transportAddressEqual(b)
+}
+
 func removeRedundantPrflxFromSet(set []Candidate, cand Candidate) ([]Candidate, []Candidate) {
 	var replacedPrflx []Candidate
 
 	for i := 0; i < len(set); i++ {
 		existing := set[i]
-		if existing.Type() == CandidateTypePeerReflexive && existing.transportAddressEqual(cand) {
+		if existing.Type() == CandidateTypePeerReflexive && sameTransportAddress(existing, cand) {
 			replacedPrflx = append(replacedPrflx, existing)
 			set = append(set[:i], set[i+1:]...)
 			i--
